@@ -94,3 +94,48 @@ Theorem C14_failed_run_no_final_any_subset : forall fexp c files d0 ws',
   let d := dir_puts (dir_remove d0 is_purged) ws' in
   dir_get d "clusters.pkl" = None /\ dir_get d "cluster-centroids-packed.pkl" = None.
 Proof. exact failed_run_no_final_subset. Qed.
+
+(* ---- the publication protocol (Proofs/MrPublish.v) ----
+   The model writes the final files directly; the code publishes them through temporary files and renames
+   (GMrDel.final_publish, extracted from the source).  pub_exec gives that plan a semantics on directories:
+   executing the whole plan IS the direct write (C14_publish_all, C14_run_multiround_pub_eq for the whole
+   run); after any strict prefix clusters.pkl is untouched and everything the prefix changed is purged by
+   the next run (for the extracted plan and for ANY plan passing pub_safe); hence a crash anywhere inside
+   the publication followed by a complete run gives the files of a fresh run and leaves foreign files
+   alone.  pub_ok alone is too weak for the generic form: MrPublish.pub_ok_prefix_no_final_refuted. *)
+From BB Require Import Proofs.MrPublish.
+Theorem C14_publish_all : forall sc ws d,
+  dir_wf d -> no_tmp d ->
+  map fst ws = pub_dsts (final_publish sc) ->
+  pub_exec (cont_of ws) d (final_publish sc) = dir_puts d ws.
+Proof. exact (@publish_all). Qed.
+Theorem C14_publish_prefix_no_final : forall sc ws d p a rest,
+  final_publish sc = (p ++ a :: rest)%list ->
+  dir_get (pub_exec (cont_of ws) d p) "clusters.pkl" = dir_get d "clusters.pkl".
+Proof. exact (@publish_prefix_no_final). Qed.
+Theorem C14_publish_prefix_purged : forall sc ws d p rest,
+  final_publish sc = (p ++ rest)%list ->
+  dir_remove (pub_exec (cont_of ws) d p) is_purged = dir_remove d is_purged.
+Proof. exact (@publish_prefix_purged). Qed.
+Theorem C14_pub_prefix_purged_gen : forall l p rest cont d,
+  pub_safe l = true -> l = (p ++ rest)%list ->
+  dir_remove (pub_exec cont d p) is_purged = dir_remove d is_purged.
+Proof. exact (@pub_prefix_purged_gen). Qed.
+Theorem C14_run_multiround_pub_eq : forall fexp c files d0,
+  dir_wf d0 -> run_multiround_pub fexp c files d0 = run_multiround fexp c files d0.
+Proof. exact run_multiround_pub_eq. Qed.
+Theorem C14_crash_in_publish_no_final : forall fexp c files d0 k dI,
+  crash_in_publish fexp c files d0 k = Some dI ->
+  (k < List.length (GMrDel.final_publish (m_save_centroids c)))%nat ->
+  dir_get dI "clusters.pkl"%string = None.
+Proof. exact crash_in_publish_no_final. Qed.
+Theorem C14_crash_in_publish_then_rerun : forall fexp c files d0 k dI c' files',
+  dir_wf d0 -> crash_in_publish fexp c files d0 k = Some dI ->
+  match run_multiround_pub fexp c' files' dI, run_multiround fexp c' files' [] with
+  | Some d, Some e =>
+      dir_get d "clusters.pkl"%string = dir_get e "clusters.pkl"%string /\
+      dir_get d "cluster-centroids-packed.pkl"%string = dir_get e "cluster-centroids-packed.pkl"%string /\
+      (forall n, is_purged n = true -> dir_get d n = dir_get e n) /\
+      (forall n, is_purged n = false -> dir_get d n = dir_get d0 n)
+  | None, None => True | _, _ => False end.
+Proof. exact crash_in_publish_then_rerun. Qed.
